@@ -33,8 +33,24 @@ from common import ROOT, Check, InfraError, ddmin, frac
 warnings.filterwarnings("ignore")
 
 HALF_ULP32 = Fraction(1, 2 ** 24)
-AGENTS = ["a_0", "a_1", "b_0"]
+# agent-id sets; the non-alphabetical ones matter: gymnasium's Dict space sorts its keys, agent_ids do not
+ID_SETS = {
+    "abc": ["a_0", "a_1", "b_0"],
+    "sl": ["speaker_0", "listener_0"],                       # environment order, not alphabetical
+    "zb": ["z_1", "z_0", "b_0"],                             # group z listed 1, 0; group b after z
+    "drones": [f"drone_{i}" for i in range(11)],             # "drone_10" sorts before "drone_2"
+}
+AGENTS = list(ID_SETS["abc"])
 GROUPS = {"a": ["a_0", "a_1"], "b": ["b_0"]}
+
+
+def use_ids(key) -> None:
+    """select the agent-id set the multi-agent runners work with"""
+    global AGENTS, GROUPS
+    AGENTS = list(ID_SETS[key or "abc"])
+    GROUPS = {}
+    for a in AGENTS:
+        GROUPS.setdefault(a.rsplit("_", 1)[0], []).append(a)
 
 # findings analysed in the build round; each is probed on exactly its own input class.  A failing probe is a
 # VIOLATION unless known_findings.json lists the id as open.
@@ -262,7 +278,9 @@ def build_obs(case, lead=None, rows_sel=None):
         if sd["kind"] == "tuple":
             return tuple(objs)
         pairs = [(key, o) for (key, _, _, _), o in zip(members, objs)]
-        if case.get("dict_reversed"):
+        if case.get("dict_order"):
+            pairs = [pairs[i] for i in case["dict_order"]]    # the environment's insertion order, not the sorted one
+        elif case.get("dict_reversed"):
             pairs.reverse()                  # member-by-member must not depend on the dict's key order
         d = dict(pairs)
         if cont == "tensordict":
@@ -273,6 +291,26 @@ def build_obs(case, lead=None, rows_sel=None):
     _, m, rows, dt = members[0]
     rr = rows if rows_sel is None else [rows[rows_sel]]
     return make_leaf_obs(m, lead, rr, cont, dt)
+
+
+def snapshot(obs):
+    """deep copy of the caller's observation object as plain numpy"""
+    if hasattr(obs, "keys"):
+        return {k: snapshot(obs[k]) for k in obs.keys()}
+    if isinstance(obs, tuple):
+        return tuple(snapshot(o) for o in obs)
+    if isinstance(obs, torch.Tensor):
+        return obs.detach().clone().numpy()
+    return np.array(obs, copy=True)
+
+
+def unchanged(obs, snap) -> bool:
+    if hasattr(obs, "keys"):
+        return list(obs.keys()) == list(snap.keys()) and all(unchanged(obs[k], snap[k]) for k in snap)
+    if isinstance(obs, tuple):
+        return len(obs) == len(snap) and all(unchanged(o, s) for o, s in zip(obs, snap))
+    cur = obs.detach().numpy() if isinstance(obs, torch.Tensor) else np.asarray(obs)
+    return cur.shape == snap.shape and cur.dtype == snap.dtype and np.array_equal(cur, snap)
 
 
 def call_prep(case, obs):
@@ -309,18 +347,35 @@ def run_prep(case):
                          + " ".join(frac(v) for v in vals))
     valid = all(accepted_form(m, lead) and all(row_valid(m, float32_values(m, [r], dt)) for r in rows)
                 for _, m, rows, dt in members)
+    pure_problem = None
     try:
         obs = build_obs(case)
+        snap = snapshot(obs)
         out = call_prep(case, obs)
         outs = split_result(case, out)
         impl = [canon_tensor(o) for o in outs]
         raised = None
+        # preparing is a pure function of the observation: the caller's object is untouched and preparing the
+        # SAME object again gives the same tensors
+        if not unchanged(obs, snap):
+            pure_problem = "preparing the observation modified the caller's object in place"
+        else:
+            again = [canon_tensor(o) for o in split_result(case, call_prep(case, obs))]
+            if again != impl:
+                pure_problem = "preparing the same observation object a second time gives different values"
+            elif not unchanged(obs, snap):
+                pure_problem = "the second preparation modified the caller's object in place"
     except Exception as e:  # noqa: BLE001
         impl, raised, outs = "reject", e, None
     nobs = numel(lead)
     tags.append("prep-" + case["space"]["kind"])
     tags.append("form-" + case["form"])
     tags.append("in-" + case["container"])
+    if pure_problem:
+        problems.append(pure_problem)
+        tags.append("purity-violated")
+    elif raised is None:
+        tags.append("purity-checked")
     if valid:
         if raised is not None:
             problems.append(f"a legal {case['form']} {case['space']['kind']} observation was rejected: "
@@ -390,6 +445,8 @@ def has_rank0_box(case) -> bool:
 def deciding_member(case):
     """get_vect_dim looks at the first member of the observation (dict order / tuple position 0)"""
     members = leaf_members(case)
+    if case["space"]["kind"] == "dict" and case.get("dict_order"):
+        return members[case["dict_order"][0]][1]
     return members[-1][1] if case.get("dict_reversed") and case["space"]["kind"] == "dict" else members[0][1]
 
 
@@ -465,6 +522,9 @@ def ma_spaces(kind):
         return [spaces.Box(0, 255, (1, 3, 3), dtype=np.uint8) for _ in AGENTS]
     if kind == "mbin":
         return [spaces.MultiBinary(3) for _ in AGENTS]
+    if kind == "dict":      # members of different rank; gymnasium sorts the keys: lane < pos
+        return [spaces.Dict({"pos": spaces.Box(-4, 4, (3,), dtype=np.float32), "lane": spaces.Discrete(4)})
+                for _ in AGENTS]
     raise InfraError(kind)
 
 
@@ -479,12 +539,13 @@ def ma_space_desc(kind):
 
 
 def ma_agent(algo, kind, seed=11):
+    """the agent for the currently selected id set (use_ids)"""
     from gymnasium import spaces
-    key = (algo, kind, seed)
+    key = (algo, kind, seed, tuple(AGENTS))
     if key not in _AGENTS:
         torch.manual_seed(seed)
         np.random.seed(seed)
-        cfg = cnn_cfg() if kind == "image" else mlp_cfg()
+        cfg = cnn_cfg() if kind == "image" else (None if kind == "dict" else mlp_cfg())
         if algo == "ippo":
             from agilerl.algorithms.ippo import IPPO
             ag = IPPO(ma_spaces(kind), [spaces.Discrete(2) for _ in AGENTS], agent_ids=list(AGENTS), net_config=cfg)
@@ -506,10 +567,22 @@ def ma_obs(kind, E, seed, vect=True):
             x = r.integers(0, 4, (E,)).astype(np.int64)
         elif kind == "mbin":
             x = r.integers(0, 2, (E, 3)).astype(np.int8)
+        elif kind == "dict":
+            # insertion order pos, lane: NOT the sorted key order of the space
+            x = {"pos": (r.integers(-16, 17, (E, 3)) / 4.0).astype(np.float32),
+                 "lane": r.integers(0, 4, (E,)).astype(np.int64)}
         else:
-            x = r.integers(0, 256, (E, 1, 3, 3)).astype(np.uint8)
-        out[a] = x if vect else x[0]
+            # odd seeds: float32 frames (obs_to_tensor does not copy those), even seeds: uint8
+            x = r.integers(0, 256, (E, 1, 3, 3)).astype(np.float32 if seed % 2 else np.uint8)
+        out[a] = x if vect else sel(x, 0)
     return out
+
+
+def sel(x, idx):
+    """index the environment dimension of one agent's observation (array or dict of arrays)"""
+    if isinstance(x, dict):
+        return {k: v[idx] for k, v in x.items()}
+    return x[idx]
 
 
 def ma_rows(kind, arr, vect=True):
@@ -522,6 +595,7 @@ def ma_rows(kind, arr, vect=True):
 
 def run_ma_prep(case):
     """MultiAgentRLAlgorithm.preprocess_observation (MADDPG) / IPPO.preprocess_observation vs the model"""
+    use_ids(case.get("ids"))
     algo, kind, E, vect = case["algo"], case["kind"], case["E"], case["vect"]
     ag = ma_agent(algo, kind)
     obs = ma_obs(kind, E, case["seed"], vect)
@@ -531,7 +605,8 @@ def run_ma_prep(case):
     per_agent = {}
     for a in AGENTS:
         rows = ma_rows(kind, obs[a], vect)
-        dt = {"vector": "float32", "discrete": "int64", "mbin": "int8", "image": "uint8"}[kind]
+        dt = {"vector": "float32", "discrete": "int64", "mbin": "int8",
+              "image": "float32" if case["seed"] % 2 else "uint8"}[kind]
         vals = float32_values(sd, rows, dt)
         model_ops.append(f"obs prep 1 | {space_sections(sd)} | {' '.join(map(str, lead + obs_shape(sd)))} | "
                          + " ".join(frac(v) for v in vals))
@@ -554,6 +629,7 @@ def run_ma_prep(case):
 
 
 def diff_ma_prep(case, impl, model_lines):
+    use_ids(case.get("ids"))
     parsed = [parse_model(ln) for ln in model_lines]
     if any(p == "reject" or (isinstance(p, tuple) and p[0] == "bad") for p in parsed):
         return f"model answered {model_lines[:1]}"
@@ -575,6 +651,7 @@ def diff_ma_prep(case, impl, model_lines):
 
 def run_asm(case):
     """assemble_/disassemble_homogeneous_outputs on a real IPPO: values are small integers"""
+    use_ids(case.get("ids"))
     ag = ma_agent("ippo", "vector")
     E, f, seed = case["E"], case["f"], case["seed"]
     r = np.random.default_rng(seed)
@@ -608,6 +685,7 @@ def run_asm(case):
 
 def run_critic(case):
     """stack_critic_observations on a real MADDPG: row b is built from row b of every agent"""
+    use_ids(case.get("ids"))
     kind, E, seed = case["kind"], case["E"], case["seed"]
     ag = ma_agent("maddpg", kind)
     obs = ma_obs(kind, E, seed, True)
@@ -646,12 +724,21 @@ def run_dqn_action(case):
     problems = []
     n = numel(case["lead"])
     obs = build_obs(case)
+    snap = snapshot(obs)
     try:
         with torch.no_grad():
             q = ag.actor(ag.preprocess_observation(obs)).detach()
         act = ag.get_action(obs, epsilon=0.0)
         if q.dim() != 2 or q.shape[0] != n:
             raise ValueError(f"Q-values of shape {list(q.shape)} for {n} observation(s)")
+        # acting on an observation leaves it intact; evaluating the same object again gives the same Q-values
+        with torch.no_grad():
+            q_again = ag.actor(ag.preprocess_observation(obs)).detach()
+        if not unchanged(obs, snap):
+            return [], [], ["acting on the observation modified the caller's object in place"], ["dqn-action"]
+        if not torch.equal(q, q_again):
+            return [], [], ["Q-values of the same observation object differ when it is evaluated again"], \
+                ["dqn-action"]
     except Exception as e:  # noqa: BLE001
         return [], [], [f"the network rejects a prepared batch of {n} legal observation(s): "
                         f"{type(e).__name__}: {str(e)[:120]}"], ["dqn-action"]
@@ -691,13 +778,15 @@ def ippo_values(ag, obs):
 def maddpg_eval(ag, obs):
     act, _ = ag.get_action(obs, training=False)
     pre = ag.preprocess_observation(obs)
-    acts = torch.cat([torch.as_tensor(act[a]).reshape(pre[AGENTS[0]].shape[0] if True else 1, -1) for a in AGENTS], dim=1)
+    n = pre[AGENTS[0]].shape[0]
+    acts = torch.cat([torch.as_tensor(act[a]).reshape(n, -1) for a in AGENTS], dim=1)
     with torch.no_grad():
         q = ag.critics[0](ag.stack_critic_observations(pre), acts).detach().reshape(-1)
     return act, q.numpy()
 
 
 def run_ma_action(case):
+    use_ids(case.get("ids"))
     try:
         return _run_ma_action(case)
     except Exception as e:  # noqa: BLE001
@@ -705,9 +794,26 @@ def run_ma_action(case):
             [f"ma-action-{case['algo']}-{case['kind']}"]
 
 
+def own_network_reference(ag, algo, obs):
+    """what each agent's OWN network says about its OWN observation, computed one agent at a time with the
+    function-level preprocess_observation (no multi-agent routing involved)"""
+    from agilerl.utils.algo_utils import preprocess_observation
+    ref = {}
+    for i, a in enumerate(AGENTS):
+        x = preprocess_observation(obs[a], ag.observation_spaces[i], normalize_images=ag.normalize_images)
+        if algo == "ippo":
+            net = ag.critics[ag.shared_agent_ids.index(ag.get_homo_id(a))]
+        else:
+            net = ag.actors[i]
+        net.eval()
+        with torch.no_grad():
+            ref[a] = net(x).detach().numpy()
+    return ref
+
+
 def _run_ma_action(case):
     """IPPO value estimates (shared policy) / MADDPG actions and centralised-critic values:
-    env e of agent a gives the same numbers whatever else shares the call"""
+    (agent a, env e) gets what a's own network says about that observation, whatever else shares the call"""
     algo, kind, E, seed = case["algo"], case["kind"], case["E"], case["seed"]
     ag = ma_agent(algo, kind)
     obs = ma_obs(kind, E, seed, True)
@@ -715,22 +821,35 @@ def _run_ma_action(case):
     env_perm = case.get("env_perm") or list(range(E))
     problems = []
     tol = dict(atol=2e-5, rtol=1e-4)
+    tags = [f"ma-action-{algo}-{kind}", f"ids-{case.get('ids') or 'abc'}",
+            "agent-reordered" if order != AGENTS else "agent-order-id"]
 
     def reorder(o, keys, envs=None):
-        return {a: (o[a] if envs is None else o[a][envs]) for a in keys}
+        return {a: (o[a] if envs is None else sel(o[a], envs)) for a in keys}
 
+    snap = snapshot(obs)
+    ref = own_network_reference(ag, algo, obs)
     if algo == "ippo":
         base = ippo_values(ag, reorder(obs, AGENTS))
+        if not unchanged(obs, snap):
+            return [], [], ["IPPO.get_action modified the caller's observations in place"], tags
         for a in AGENTS:
             if list(base[a].shape)[0] != E:
                 problems.append(f"IPPO values of {a}: shape {list(base[a].shape)} for {E} envs")
         if not problems:
+            bad = [a for a in AGENTS if not np.allclose(base[a].reshape(-1), ref[a].reshape(-1), **tol)]
+            if bad:
+                problems.append(f"IPPO values reported for {bad[:4]} are not what the group's critic gives for "
+                                f"their own observations (agent_ids {AGENTS[:4]}…): e.g. {bad[0]} got "
+                                f"{base[bad[0]].reshape(-1)[:3]} want {ref[bad[0]].reshape(-1)[:3]}")
+        if not problems:
             for e in range(E):            # one environment alone, unvectorised
-                v1 = ippo_values(ag, {a: obs[a][e] for a in AGENTS})
+                v1 = ippo_values(ag, {a: sel(obs[a], e) for a in AGENTS})
                 for a in AGENTS:
                     if not np.allclose(v1[a].reshape(-1), base[a][e].reshape(-1), **tol):
                         problems.append(f"IPPO value of ({a}, env {e}) alone {v1[a].reshape(-1)} != in the batch "
                                         f"{base[a][e].reshape(-1)}")
+                        break
             vp = ippo_values(ag, reorder(obs, AGENTS, env_perm))
             for a in AGENTS:
                 if not np.allclose(vp[a].reshape(E, -1), base[a].reshape(E, -1)[env_perm], **tol):
@@ -741,14 +860,24 @@ def _run_ma_action(case):
                 problems.append(f"AGENT-ORDER: IPPO values of {bad} change when the observation dict is ordered {order}")
     else:
         act, q = maddpg_eval(ag, reorder(obs, AGENTS))
+        if not unchanged(obs, snap):
+            return [], [], ["MADDPG.get_action modified the caller's observations in place"], tags
+        bad = [a for a in AGENTS if not np.allclose(act[a].reshape(-1), ref[a].reshape(-1), **tol)]
+        if bad:
+            problems.append(f"MADDPG actions reported for {bad} are not what their own actors give for their own "
+                            f"observations (agent_ids {AGENTS})")
+        pre = ag.preprocess_observation(reorder(obs, AGENTS))
+        if list(pre.keys()) != AGENTS:
+            problems.append(f"preprocessed observations are ordered {list(pre.keys())}, agents/actors/critics are "
+                            f"ordered {AGENTS}")
         for e in range(E):
-            a1, q1 = maddpg_eval(ag, {a: obs[a][e:e + 1] for a in AGENTS})
+            a1, q1 = maddpg_eval(ag, {a: sel(obs[a], slice(e, e + 1)) for a in AGENTS})
             for a in AGENTS:
                 if not np.allclose(a1[a].reshape(-1), act[a][e].reshape(-1), **tol):
                     problems.append(f"MADDPG action of ({a}, env {e}) alone != in the batch")
             if not np.allclose(q1[0], q[e], **tol):
                 problems.append(f"centralised critic value of env {e} alone {q1[0]} != in the batch {q[e]}")
-            au, _ = ag.get_action({a: obs[a][e] for a in AGENTS}, training=False)      # unvectorised call
+            au, _ = ag.get_action({a: sel(obs[a], e) for a in AGENTS}, training=False)      # unvectorised call
             for a in AGENTS:
                 if not np.allclose(au[a].reshape(-1), act[a][e].reshape(-1), **tol):
                     problems.append(f"MADDPG action of ({a}, env {e}) unbatched != in the batch")
@@ -763,7 +892,7 @@ def _run_ma_action(case):
         if bad or not np.allclose(qo, q, **tol):
             problems.append(f"AGENT-ORDER: MADDPG actions of {bad} / critic values change when the observation "
                             f"dict is ordered {order}")
-    return [], [], problems, [f"ma-action-{algo}-{kind}", "agent-reordered" if order != AGENTS else "agent-order-id"]
+    return [], [], problems, tags
 
 
 def run_noncontig(case):
@@ -823,10 +952,12 @@ def gen_leaf_space(rng: random.Random, kinds=None):
         rank = rng.choice([0, 1, 1, 2, 3, 3, 3, 4])
         shape = [rng.choice([1, 1, 2, 3]) for _ in range(rank)]
         n = numel(shape)
-        mode = rng.choice(["u8", "u8-64", "f32", "f32-inf", "i8", "perelem", "unit"] if rank == 3
+        mode = rng.choice(["u8", "u8-64", "f32", "f32-255", "f32-inf", "i8", "perelem", "unit"] if rank == 3
                           else ["f32", "u8", "f64", "i32", "f32-inf"])
         if mode == "u8":
             sd = {"low": [0] * n, "high": [255] * n, "sdtype": "uint8"}
+        elif mode == "f32-255":
+            sd = {"low": [0] * n, "high": [255] * n, "sdtype": "float32"}      # float32 frames are not copied
         elif mode == "u8-64":
             sd = {"low": [0] * n, "high": [64] * n, "sdtype": "uint8"}          # dyadic range: exact floats
         elif mode == "i8":
@@ -910,7 +1041,8 @@ def gen_prep_case(rng: random.Random, composite_p=0.25, via_dqn=None):
         sd = via_dqn
     elif rng.random() < composite_p:
         ck = rng.choice(["dict", "tuple"])
-        members = [[f"k{i}", gen_leaf_space(rng)] for i in range(rng.choice([1, 2, 3]))]
+        names = rng.sample(["pos", "img", "vel", "lane", "aux"], rng.choice([1, 2, 3]))   # not alphabetical
+        members = [[nm if ck == "dict" else f"k{i}", gen_leaf_space(rng)] for i, nm in enumerate(names)]
         sd = {"kind": ck, "members": members}
     else:
         sd = gen_leaf_space(rng)
@@ -935,8 +1067,8 @@ def gen_prep_case(rng: random.Random, composite_p=0.25, via_dqn=None):
             cont = rng.choice(["tuple-numpy", "tuple-torch"])
         case = {"op": "prep", "space": sd, "norm": norm, "form": form, "lead": lead, "rows": rows,
                 "dtypes": dtypes, "container": cont}
-        if sd["kind"] == "dict" and rng.random() < 0.4:
-            case["dict_reversed"] = True
+        if sd["kind"] == "dict" and rng.random() < 0.6:
+            case["dict_order"] = rng.sample(range(len(sd["members"])), len(sd["members"]))
     else:
         rows = [gen_row(rng, sd, wild) for _ in range(nobs)]
         conts = ["numpy", "numpy", "torch"]
@@ -958,6 +1090,7 @@ DQN_SPACES = [
     ({"kind": "mbin", "n": 3}, True),
     ({"kind": "box", "shape": [1, 3, 3], "low": [0] * 9, "high": [255] * 9, "sdtype": "uint8"}, True),
     ({"kind": "box", "shape": [1, 3, 3], "low": [0] * 9, "high": [255] * 9, "sdtype": "uint8"}, False),
+    ({"kind": "box", "shape": [1, 3, 3], "low": [0] * 9, "high": [255] * 9, "sdtype": "float32"}, True),
     ({"kind": "dict", "members": [["v", {"kind": "box", "shape": [2], "low": [-4] * 2, "high": [4] * 2,
                                           "sdtype": "float32"}], ["d", {"kind": "disc", "n": 3}]]}, True),
     ({"kind": "tuple", "members": [["0", {"kind": "box", "shape": [2], "low": [-4] * 2, "high": [4] * 2,
@@ -1018,30 +1151,56 @@ def gen_cases(chk: Check):
         if extra == -1 and not p:
             continue
         cases.append({"op": "batchdim", "shape": shape, "space_shape": p, "container": rng.choice(["numpy", "torch"])})
-    # multi-agent entry points
-    kinds = ["vector", "discrete", "image"]
-    for algo in ("maddpg", "ippo"):
+    # multi-agent entry points; the id sets "sl", "zb", "drones" are deliberately NOT alphabetical
+    def shuffled(ids):
+        order = list(ids)
+        while order == list(ids):
+            rng.shuffle(order)
+        return order
+
+    combos = [("maddpg", "vector", "abc"), ("maddpg", "image", "abc"), ("maddpg", "vector", "sl"),
+              ("ippo", "vector", "abc"), ("ippo", "discrete", "abc"), ("ippo", "mbin", "abc"),
+              ("ippo", "vector", "zb"), ("ippo", "vector", "drones"), ("ippo", "dict", "zb")]
+    if not quick:
         # (MADDPG's centralised critic cannot be built for MultiBinary observations: concatenate_spaces)
-        for kind in ((kinds + (["mbin"] if algo == "ippo" else [])) if not quick else
-                     (["vector", "image"] if algo == "maddpg" else ["vector", "discrete", "mbin"])):
-            for _ in range(4 if quick else 15):
-                E = rng.choice([1, 2, 3, 4])
-                cases.append({"op": "ma_prep", "algo": algo, "kind": kind, "E": E, "vect": rng.random() < 0.75,
-                              "seed": rng.randrange(1 << 20)})
+        combos += [("maddpg", "discrete", "abc"), ("ippo", "image", "abc"), ("maddpg", "vector", "zb"),
+                   ("maddpg", "image", "sl"), ("ippo", "discrete", "drones")]
+    for algo, kind, ids in combos:
+        if kind != "dict":
             for _ in range(3 if quick else 12):
                 E = rng.choice([1, 2, 3, 4])
-                order = list(AGENTS)
-                while order == AGENTS:
-                    rng.shuffle(order)
-                cases.append({"op": "ma_action", "algo": algo, "kind": kind, "E": E, "seed": rng.randrange(1 << 20),
-                              "order": order, "env_perm": rng.sample(range(E), E)})
+                cases.append({"op": "ma_prep", "algo": algo, "kind": kind, "ids": ids, "E": E,
+                              "vect": rng.random() < 0.75, "seed": rng.randrange(1 << 20)})
+        for _ in range(2 if quick else 10):
+            E = rng.choice([1, 2, 3, 4]) if ids != "drones" else rng.choice([1, 2])
+            cases.append({"op": "ma_action", "algo": algo, "kind": kind, "ids": ids, "E": E,
+                          "seed": rng.randrange(1 << 20), "order": shuffled(ID_SETS[ids]),
+                          "env_perm": rng.sample(range(E), E)})
     for _ in range(12 if quick else 120):
         cases.append({"op": "asm", "E": rng.choice([1, 2, 3, 5]), "f": rng.choice([0, 1, 2, 3]),
                       "seed": rng.randrange(1 << 20)})
-    for kind in ("vector", "image"):
+    for kind, ids in (("vector", "abc"), ("image", "abc"), ("vector", "sl")):
         for _ in range(4 if quick else 40):
-            cases.append({"op": "critic", "kind": kind, "E": rng.choice([1, 2, 3, 4]), "seed": rng.randrange(1 << 20),
-                          "raw": rng.random() < 0.5})
+            cases.append({"op": "critic", "kind": kind, "ids": ids, "E": rng.choice([1, 2, 3, 4]),
+                          "seed": rng.randrange(1 << 20), "raw": rng.random() < 0.5})
+    # get_vect_dim on dict observations listed in the environment's (non-sorted) order, members of different rank
+    pos = {"kind": "box", "shape": [3], "low": [-4] * 3, "high": [4] * 3, "sdtype": "float32"}
+    imgf = {"kind": "box", "shape": [1, 2, 2], "low": [0] * 4, "high": [255] * 4, "sdtype": "float32"}
+    lane = {"kind": "disc", "n": 4}
+    for _ in range(16 if quick else 120):
+        mem = rng.choice([[["pos", pos], ["img", imgf]], [["velocity", pos], ["lane", lane]],
+                          [["pos", pos], ["img", imgf], ["lane", lane]], [["z", lane], ["a", imgf]]])
+        form, lead = rng.choice([("unbatched", []), ("batch-of-one", [1]), ("batched", [rng.choice([2, 3, 5])])])
+        sd = {"kind": "dict", "members": mem}
+        c = {"op": "vect", "space": sd, "norm": True, "form": form, "lead": lead,
+             "rows": [[gen_row(rng, m) for _ in range(numel(lead))] for _, m in mem],
+             "dtypes": [leaf_dtype(rng, m) for _, m in mem],
+             "container": rng.choice(["dict-numpy", "dict-torch"] + (["tensordict"] if len(lead) <= 1 else [])),
+             "dict_order": rng.sample(range(len(mem)), len(mem))}
+        cases.append(c)
+        p = dict(c)
+        p["op"] = "prep"
+        cases.append(p)
     return cases
 
 
@@ -1147,7 +1306,7 @@ def run_suite(chk: Check, cases, account=True):
             nontrivial = case["op"] in ("ma_prep", "asm", "critic", "ma_action", "dqn_action") or \
                 (case.get("form") not in ("unbatched", None))
             chk.case(case, nontrivial=nontrivial,
-                     sample={k: case[k] for k in ("op", "space", "form", "lead", "container", "algo", "kind", "E")
+                     sample={k: case[k] for k in ("op", "space", "form", "lead", "container", "algo", "kind", "ids", "E")
                              if k in case} if chk.rng.random() < 0.05 or chk.evaluations < 2 else None,
                      tags=tags)
         if diff is None and not problems:
